@@ -111,6 +111,7 @@ class MarkerExpression(SingleMarker):
                 return None
             pkg_spec = next(iter(specifier.to_specifierset()))
             pkg_version = pkg_spec.version
+            attached: BaseSpecifier | None = specifier
             # epoch and release segments; pre/post/dev suffixes follow them
             release = re.match(r"(?:\d+!)?\d+(?:\.\d+)*", pkg_version)
             if (
@@ -127,8 +128,11 @@ class MarkerExpression(SingleMarker):
                     + ".0" * (2 - dot_num)
                     + pkg_version[release.end() :]
                 )
+                # the specifier spells the bound differently now ("3.10" vs "3.10.0"):
+                # let the marker derive its view from its own text again
+                attached = None
             return MarkerExpression(
-                name, pkg_spec.operator, pkg_version, _specifier=specifier
+                name, pkg_spec.operator, pkg_version, _specifier=attached
             )
         assert isinstance(specifier, GenericSpecifier)
         return MarkerExpression(
